@@ -333,6 +333,11 @@ def run(ck):
             n += 1
             if ck.mine(n):
                 P.one('grid.payload_pair', v)
+        for dsc, v in gen.substructure_pairs(clear, fields):
+            n += 1
+            if ck.mine(n):
+                ck.count('grid.substructure_pairs')
+                P.one(f'grid.{dsc[0]}', v)
         # (d) same grid on the plaintext of a protected message, re-sealed with the right keys
         inner_raw = codec.enc_chain(m['payloads'])
         inner_first = m['payloads'][0]['type'] if m['payloads'] else 0
@@ -354,6 +359,12 @@ def run(ck):
                 n += 1
                 if ck.mine(n):
                     P.one('sealed.grid.payload_pair', seal(hdr, v, inner_first, keys, rng), crypto=crypto,
+                          desc={'inner': v, 'inner_first': inner_first, 'keys': keys})
+            for dsc, v in gen.substructure_pairs(inner_raw, ifields):
+                n += 1
+                if ck.mine(n):
+                    ck.count('grid.substructure_pairs')
+                    P.one(f'sealed.grid.{dsc[0]}', seal(hdr, v, inner_first, keys, rng), crypto=crypto,
                           desc={'inner': v, 'inner_first': inner_first, 'keys': keys})
             for t_ in (47, 200, 255):
                 for ln in (0, 1, 2, 3, 4):
@@ -427,6 +438,7 @@ def verdict(ck):
     ck.floor('distinct long proposals parsed by one process', c['longlived.parsed'], 1500)
     ck.floor('well-formed messages in legal but unusual shapes', c['unusual.messages'], 1200)
     ck.floor('inputs with text hostile to pattern matching', c['hostile_text.inputs'], 500)
+    ck.floor('kind x length pairs inside substructures (selector, proposal, transform, attribute)', c['grid.substructure_pairs'], 2000)
     ck.floor('near-miss texts (long accepted run, then a refused octet) in every identity type and vendor IDs', c['hostile_text.near_misses'], 700)
     ck.floor('large extreme shapes', len(ck.sets['large.shapes']), 15)
     ck.floor('large inputs parsed', c['large.inputs'], 40)
